@@ -32,6 +32,10 @@ def gen_value(rng, feat, depth=0, placeholders=None):
         # long values (id lists, vocabularies, texts): variants of them differ in the MIDDLE (same_type_value)
         n = rng.choice([120, 400])
         return [rng.randrange(1000, 9999) for _ in range(n)] if rng.random() < 0.6 else ''.join(rng.choice('abcdefgh ') for _ in range(n))
+    if depth == 0 and feat.get('twin_subvalues', True) and rng.random() < 0.06:
+        # a value holding the same sub-value twice (train / valid column lists ...): two equal objects here, one shared object after a YAML alias
+        sub_ = rng.choice([[rng.randrange(9) for _ in range(rng.randint(1, 4))], {'k': rng.randrange(9), 'cols': ['a', 'b']}, [['x', 1], 'y']])
+        return rng.choice([[sub_, copy.deepcopy(sub_)], {'train': sub_, 'valid': copy.deepcopy(sub_), 'n': 1}])
     r = rng.random()
     if depth < 2 and r < 0.15:
         return [gen_value(rng, feat, depth + 1, placeholders) for _ in range(rng.randint(0, 3))]
